@@ -224,3 +224,17 @@ def run(ctx):
                 violate(f"cache:{c['check']}", f"serialization cache: {c['check']} failed ({c['got'][:80]})", {"check": c})
     res.traces_validated = res.evaluations
     return res
+
+
+SELFTEST = """
+Mutation self-test (scratch copy of /repo/src via VERIF_REPO, quick tier, 2026-09; exit code, first replay keys):
+
+ M1  Call.marshal_options: drop `receive_progress`                 rc=1  roundtrip:Call.receive_progress:changed (+ :falsy-dropped)
+ M2  Cancel.MESSAGE_TYPE 49 -> 51                                  rc=1  type-code:Cancel (+ codes_match_protocol no longer proves)
+ M5  Subscribe.parse: len(wmsg) != 4 -> != 5                       rc=1  roundtrip-raises:Subscribe:ProtocolError
+ M6  JSON batch split [:-1] -> [1:]                                rc=1  roundtrip-raises:<every class>:ProtocolError:json (180 keys)
+ M7  JsonObjectSerializer.BINARY = True                            rc=1  binary-flag:json, cache:per-serializer-bytes (+ binary_flag no longer proves)
+ M8  CBOR batch length prefix read little-endian                   rc=1  roundtrip-raises:<every class>:ProtocolError:cbor
+ M10 Call.marshal_options: `if self.caller:` instead of `is not None`   rc=1  roundtrip:Call.caller:falsy-dropped
+ H1  harmless: GOODBYE option blocks swapped, local renamed, f-string -> format   rc=0 (silent)
+"""
